@@ -60,7 +60,7 @@ def _open_calls(body, bodies):
     not the closures the tracing macros call on the spot."""
     from cbcore import own_file
     for blk, t, c, hid, is_cl in _calls(body):
-        if not is_cl and ((c.get("def") or "").startswith(SKIP_PREFIX) or c.get("crate") in SKIP_CRATES):
+        if not is_cl and ((c.get("def") or "").startswith(SKIP_PREFIX) or (c.get("crate") in SKIP_CRATES and c.get("def") != "std::default::Default::default")):
             continue
         if is_cl:
             h = bodies.get(hid)
@@ -82,8 +82,8 @@ def eligible(bodies, parents, hid, callee, is_closure=False, single_site=False):
             return False        # closures written by the tracing macros stay what they were: tau regions
     elif h["kind"] != "fn":
         return False
-    elif (callee.get("def") or "").startswith(SKIP_PREFIX) or callee.get("crate") in SKIP_CRATES:
-        return False
+    elif (callee.get("def") or "").startswith(SKIP_PREFIX) or (callee.get("crate") in SKIP_CRATES and callee.get("def") != "std::default::Default::default"):
+        return False        # (a local `impl Default` - typically derived for a state struct - is inlined: the tables say nothing about it)
     if hid in parents and not single_site:
         return False
     if len(h["blocks"]) > MAX_BLOCKS:
@@ -165,8 +165,175 @@ def _descendants(raw, hid):
     return out
 
 
+# ----------------------------------------------------------------------------- std combinators with closures
+# `opt.map(|v| ..)`, `res.ok()`, `res.map_err(|e| ..)`, `cond.then(|| ..)`, `opt.and_then(..)`, `opt.unwrap_or_else(..)`: what std does
+# with the closure is fixed and tiny, so the call is replaced by the match it stands for; the closure call that appears is then an
+# ordinary direct call of a local closure (inlined below if it takes arguments, a thunk otherwise).  A closure that sends or
+# stores is thereby analysed in the arm that uses it instead of being an opaque argument of a library function.
+
+HOFS = {
+    "std::option::Option::<T>::map": "opt_map",
+    "std::option::Option::<T>::and_then": "opt_and_then",
+    "std::option::Option::<T>::unwrap_or_else": "opt_unwrap_or_else",
+    "std::result::Result::<T, E>::ok": "res_ok",
+    "std::result::Result::<T, E>::map_err": "res_map_err",
+    "std::result::Result::<T, E>::map": "res_map",
+    "core::bool::<impl bool>::then": "bool_then",
+    "core::bool::<impl bool>::then_some": "bool_then_some",
+}
+
+
+def _closure_def(body, op):
+    """Definition path of the closure an operand holds (a non-capturing closure is a constant), or None."""
+    if "const" in op:
+        return op["const"].get("closure")
+    pl = op.get("move") or op.get("copy")
+    if pl is None or pl["p"]:
+        return None
+    found = None
+    for blk in body["blocks"]:
+        for st in blk["stmts"]:
+            if st.get("lhs") and not st["lhs"]["p"] and st["lhs"]["l"] == pl["l"]:
+                rv = st["rv"]
+                if rv["k"] == "agg" and rv.get("ak") == "closure":
+                    if found is not None and found != rv["def"]:
+                        return None
+                    found = rv["def"]
+                else:
+                    return None
+    return found
+
+
+def desugar_hofs(raw):
+    from cbcore import own_file
+    bodies = {b["id"]: b for b in raw["bodies"]}
+    done = []
+    for body in raw["bodies"]:
+        for blk in list(body["blocks"]):
+            t = blk["term"]
+            if blk.get("cleanup") or t["k"] != "call":
+                continue
+            kind = HOFS.get(t["callee"].get("def"))
+            if kind is None or own_file(blk.get("ts", {})).startswith(("dep:tracing", "dep:log")):
+                continue
+            if not t["succ"] or not t["args"]:
+                continue
+            recv = t["args"][0]
+            rp = recv.get("move") or recv.get("copy")
+            if rp is None:
+                continue
+            cdef = None
+            needs_closure = kind not in ("res_ok", "bool_then_some")
+            if needs_closure:
+                if len(t["args"]) < 2:
+                    continue
+                cdef = _closure_def(body, t["args"][1])
+                if cdef is None or cdef not in bodies or bodies[cdef]["kind"] != "closure":
+                    continue
+                if own_file(bodies[cdef]["span"]).startswith(("dep:tracing", "dep:log")):
+                    continue
+            ts = blk.get("ts")
+            K = t["succ"][0]
+            dest = t["dest"]
+            nloc = [max(l["l"] for l in body["locals"]) + 1]
+            nblk = [max(b["id"] for b in body["blocks"]) + 1]
+
+            def local(ty):
+                l = nloc[0]
+                nloc[0] += 1
+                body["locals"].append({"l": l, "ty": ty, "flags": [], "hof": True})
+                return l
+
+            def block(stmts, term):
+                b = {"id": nblk[0], "cleanup": False, "stmts": stmts, "term": term, "ts": ts, "hof": kind}
+                nblk[0] += 1
+                body["blocks"].append(b)
+                return b["id"]
+
+            def assign(place, rv):
+                return {"lhs": place, "rv": rv, "s": ts}
+
+            def agg(adt, variant, vi, ops):
+                return {"k": "agg", "ak": "adt", "adt": adt, "variant": variant, "vi": vi, "ops": ops}
+
+            def loc(l):
+                return {"l": l, "p": []}
+
+            def payload(variant, vi):
+                return {"l": rp["l"], "p": list(rp["p"]) + [["d", variant, vi], ["f", 0]]}
+
+            def call_closure(arg_ops, dst, nxt):
+                # rust-call ABI: (closure, (args..))
+                stmts = []
+                if arg_ops:
+                    tup = local("(..)")
+                    stmts.append(assign(loc(tup), {"k": "agg", "ak": "tuple", "ops": arg_ops}))
+                    targ = {"move": loc(tup)}
+                else:
+                    targ = {"const": {"ty": "()", "v": "()"}}
+                callee = {"def": "std::ops::FnOnce::call_once", "crate": "core", "trait": "std::ops::FnOnce", "self_kind": "closure",
+                          "self_closure": cdef, "res": cdef, "res_kind": "item", "res_local": True, "ga": []}
+                return stmts, {"k": "call", "callee": callee, "args": [t["args"][1], targ], "dest": dst, "succ": [nxt]}
+
+            OPT, RES = "std::option::Option", "std::result::Result"
+            goto_k = {"k": "goto", "succ": [K]}
+            unreachable = block([], {"k": "unreachable", "succ": []})
+            if kind in ("opt_map", "opt_and_then", "opt_unwrap_or_else"):
+                d = local("isize")
+                v = local("?")
+                if kind == "opt_map":
+                    r = local("?")
+                    s2 = block([assign(dest, agg(OPT, "Some", 1, [{"move": loc(r)}]))], goto_k)
+                    st, ct = call_closure([{"move": loc(v)}], loc(r), s2)
+                    some = block([assign(loc(v), {"k": "use", "o": {"move": payload("Some", 1)}})] + st, ct)
+                    none = block([assign(dest, agg(OPT, "None", 0, []))], goto_k)
+                elif kind == "opt_and_then":
+                    st, ct = call_closure([{"move": loc(v)}], dest, K)
+                    some = block([assign(loc(v), {"k": "use", "o": {"move": payload("Some", 1)}})] + st, ct)
+                    none = block([assign(dest, agg(OPT, "None", 0, []))], goto_k)
+                else:
+                    some = block([assign(dest, {"k": "use", "o": {"move": payload("Some", 1)}})], goto_k)
+                    st, ct = call_closure([], dest, K)
+                    none = block(st, ct)
+                blk["stmts"].append(assign(loc(d), {"k": "discr", "p": {"l": rp["l"], "p": list(rp["p"])}, "nvar": 2}))
+                blk["term"] = {"k": "switch", "discr": {"move": loc(d)}, "targets": [[0, none], [1, some]], "otherwise": unreachable, "succ": [none, some, unreachable]}
+            elif kind in ("res_ok", "res_map_err", "res_map"):
+                d = local("isize")
+                if kind == "res_ok":
+                    ok = block([assign(dest, agg(OPT, "Some", 1, [{"move": payload("Ok", 0)}]))], goto_k)
+                    err = block([assign(dest, agg(OPT, "None", 0, []))], goto_k)
+                elif kind == "res_map_err":
+                    e0, x = local("?"), local("?")
+                    ok = block([assign(dest, agg(RES, "Ok", 0, [{"move": payload("Ok", 0)}]))], goto_k)
+                    s2 = block([assign(dest, agg(RES, "Err", 1, [{"move": loc(x)}]))], goto_k)
+                    st, ct = call_closure([{"move": loc(e0)}], loc(x), s2)
+                    err = block([assign(loc(e0), {"k": "use", "o": {"move": payload("Err", 1)}})] + st, ct)
+                else:
+                    v0, x = local("?"), local("?")
+                    err = block([assign(dest, agg(RES, "Err", 1, [{"move": payload("Err", 1)}]))], goto_k)
+                    s2 = block([assign(dest, agg(RES, "Ok", 0, [{"move": loc(x)}]))], goto_k)
+                    st, ct = call_closure([{"move": loc(v0)}], loc(x), s2)
+                    ok = block([assign(loc(v0), {"k": "use", "o": {"move": payload("Ok", 0)}})] + st, ct)
+                blk["stmts"].append(assign(loc(d), {"k": "discr", "p": {"l": rp["l"], "p": list(rp["p"])}, "nvar": 2}))
+                blk["term"] = {"k": "switch", "discr": {"move": loc(d)}, "targets": [[0, ok], [1, err]], "otherwise": unreachable, "succ": [ok, err, unreachable]}
+            else:   # bool_then / bool_then_some
+                if kind == "bool_then":
+                    r = local("?")
+                    s2 = block([assign(dest, agg(OPT, "Some", 1, [{"move": loc(r)}]))], goto_k)
+                    st, ct = call_closure([], loc(r), s2)
+                    yes = block(st, ct)
+                else:
+                    yes = block([assign(dest, agg(OPT, "Some", 1, [t["args"][1]]))], goto_k)
+                no = block([assign(dest, agg(OPT, "None", 0, []))], goto_k)
+                blk["term"] = {"k": "switch", "discr": recv, "targets": [[0, no]], "otherwise": yes, "succ": [no, yes]}
+            done.append((body["id"], kind, cdef))
+    raw["hofs_desugared"] = [{"body": b, "kind": k, "closure": c} for b, k, c in done]
+    return done
+
+
 def inline_local_calls(raw):
     """Returns a list of (caller, helper) pairs that were inlined; mutates raw in place."""
+    desugar_hofs(raw)
     bodies = {b["id"]: b for b in raw["bodies"]}
     from cbcore import own_file
     # closures written by the tracing macros (event dispatch) do not capture protocol state; any other closure makes its parent ineligible
